@@ -15,25 +15,31 @@ import time
 
 
 def parse_call(text: str, fn_name: str, param_names):
-    """'... when calling f(1, b"x", s='a')' -> {'i': 1, ...}; None if not evaluable."""
+    """'... when calling f(1, v1:=b"x", v1) with crosshair.patch_to_return(..) (which returns ..)' -> {'i': 1, ...}"""
     marker = "when calling "
     k = text.rfind(marker)
     if k < 0:
         return None
     call = text[k + len(marker):].strip()
-    call = re.sub(r" \(which (returns|raises) .*\)$", "", call, flags=re.S)
-    try:
-        node = ast.parse(call, mode="eval").body
-    except SyntaxError:
-        return None
-    if not isinstance(node, ast.Call):
+    node = None
+    ends = [i for i, c in enumerate(call) if c == ")"]
+    for e in ends:  # shortest prefix that is a complete call expression
+        try:
+            cand = ast.parse(call[: e + 1], mode="eval").body
+        except SyntaxError:
+            continue
+        if isinstance(cand, ast.Call):
+            node = cand
+            break
+    if node is None:
         return None
     out = {}
+    ns = {"float": float, "nan": float("nan"), "inf": float("inf")}
     try:
         for name, a in zip(param_names, node.args):
-            out[name] = eval(compile(ast.Expression(a), "<cex>", "eval"), {"float": float, "nan": float("nan"), "inf": float("inf")})
+            out[name] = eval(compile(ast.fix_missing_locations(ast.Expression(a)), "<cex>", "eval"), ns)
         for kw in node.keywords:
-            out[kw.arg] = eval(compile(ast.Expression(kw.value), "<cex>", "eval"), {"float": float, "nan": float("nan"), "inf": float("inf")})
+            out[kw.arg] = eval(compile(ast.fix_missing_locations(ast.Expression(kw.value)), "<cex>", "eval"), ns)
     except Exception:
         return None
     return out
